@@ -90,7 +90,7 @@ let req (v0 : bool) t : string =
   let w = read_world t in
   let b = world_backend w override ready in
   match dispatch compiled_table meth path with
-  | None -> (match router_level compiled_table meth path with Some code -> "U " ^ sz code | None -> "U 404")
+  | None -> if router_level_possible compiled_table path then "U ?" else "U 404"
   | Some (row, ps) ->
     (match row.br_route with
      | None -> "NOMODEL " ^ fmt_params ps
